@@ -72,3 +72,31 @@ def ordinal_keys():
         d[tag] = d.get(tag, 0) + 1
         return d[tag]
     return nxt
+
+
+class Proxy:
+    """lets one property re-use a rule function of another under its own rule id"""
+    def __init__(self, ctx, rid):
+        self._c = ctx
+        self._rid = rid
+
+    def __getattr__(self, n):
+        return getattr(self._c, n)
+
+    def rule(self, rid, text):
+        pass
+
+    def check(self, cond, rule, key, *a, **k):
+        return self._c.check(cond, self._rid, key, *a, **k)
+
+    def ok(self, rule, key, *a, **k):
+        return self._c.ok(self._rid, key, *a, **k)
+
+    def bad(self, rule, key, *a, **k):
+        return self._c.bad(self._rid, key, *a, **k)
+
+    def floor(self, rule, *a, **k):
+        return self._c.floor(self._rid, *a, **k)
+
+    def missing(self, rule, what):
+        return self._c.missing(self._rid, what)
